@@ -272,6 +272,25 @@ class Flow:
                 if isinstance(n.value, (ast.Tuple, ast.List)) and isinstance(n.slice, ast.Constant) and isinstance(n.slice.value, int) \
                         and -len(n.value.elts) <= n.slice.value < len(n.value.elts) and not any(isinstance(e, ast.Starred) for e in n.value.elts):
                     return n.value.elts[n.slice.value]
+                k = n.slice.value if isinstance(n.slice, ast.Constant) and isinstance(n.slice.value, int) and not isinstance(n.slice.value, bool) else None
+                # [E(x) for x in S][k]  ->  E(S[k])     (one generator, no filter: element k of the list is E of element k of S;
+                #                                        out of range raises IndexError either way)
+                if k is not None and k >= 0 and isinstance(n.value, ast.ListComp) and len(n.value.generators) == 1 and not n.value.generators[0].ifs \
+                        and isinstance(n.value.generators[0].target, ast.Name) and not n.value.generators[0].is_async:
+                    g = n.value.generators[0]
+                    var = g.target.id
+                    elem = ast.Subscript(value=clone(g.iter), slice=ast.Constant(k), ctx=ast.Load())
+
+                    class S_(ast.NodeTransformer):
+                        def visit_Name(self, m):
+                            return clone(elem) if m.id == var and isinstance(m.ctx, ast.Load) else m
+                    return self.visit_Subscript(ast.fix_missing_locations(S_().visit(clone(n.value.elt)))) if isinstance(n.value.elt, ast.Subscript) \
+                        else self.generic_visit(ast.fix_missing_locations(S_().visit(clone(n.value.elt))))
+                # X[:m][k] -> X[k]  for constants 0 <= k < m
+                if k is not None and k >= 0 and isinstance(n.value, ast.Subscript) and isinstance(n.value.slice, ast.Slice) and n.value.slice.lower is None \
+                        and n.value.slice.step is None and isinstance(n.value.slice.upper, ast.Constant) and isinstance(n.value.slice.upper.value, int) \
+                        and k < n.value.slice.upper.value:
+                    return ast.Subscript(value=n.value.value, slice=ast.Constant(k), ctx=ast.Load())
                 return n
 
             def visit_IfExp(self, n):
